@@ -231,6 +231,51 @@ def rule_link(ctx) -> RuleResult:
                     if not ok:
                         res.find("H5Writer", name, f"uid-named group created in {fmt(path[:-1])[:40]}", f"{fn.module.relpath}:{a.lineno}",
                                  "an entity node is created outside the flat containers: the hierarchy entry is a separate (empty) group, not a hard link")
+    # a new entity node gets its Type link before anything fallible: on every path from the creation of node(E) to the store of
+    # node(E)/Type no other writer function runs (an exception there would leave a stored node without a Type link, which the
+    # already-stored early return of write_entity never repairs)
+    for name, fn0 in W.methods.items():
+        fn = views[name]
+        d = Den(fn, ctx.p)
+        g = CFG(fn.node)
+        creates, links = [], []
+        for n in g.nodes:
+            if n.ast is None or isinstance(n.ast, list) or n.kind != "stmt":
+                continue
+            for x in ast.walk(n.ast):
+                if isinstance(x, ast.Call) and isinstance(x.func, ast.Attribute) and x.func.attr in ("create_group", "require_group") and x.args and d.uid_expr(x.args[0]) is not None:
+                    if any(len(pth) == 1 and pth[0][0] == "NODE" for pth in d.paths(x)):
+                        creates.append(n)
+                if isinstance(x, ast.Assign) and len(x.targets) == 1 and isinstance(x.targets[0], ast.Subscript):
+                    if any(pth[-1] == ("const", frozenset({"Type"})) and pth[0][0] == "NODE" for pth in d.paths(x.targets[0])):
+                        links.append(n)
+        if not creates or not links:
+            continue
+
+        def fallible(n):
+            a = n.ast
+            if a is None or isinstance(a, list) or n in links:
+                return False
+            src = a if n.kind != "with" else None
+            if src is None:
+                return False
+            for c in ast.walk(src if not isinstance(src, (ast.If, ast.For, ast.While, ast.Try)) else getattr(src, "test", src)):
+                if isinstance(c, ast.Call) and isinstance(c.func, ast.Attribute) and chain(c.func.value) in (["cls"], ["H5Writer"]) \
+                        and c.func.attr in W.methods and c.func.attr not in ("write_entity_type", "fetch_handle", "str_from_type"):
+                    return True
+            return False
+
+        for c0 in creates:
+            # nodes reachable from the creation before the Type link is stored
+            before_link = reach(g, [m for m, _ in c0.succ], avoid=lambda n: n in links)
+            bad = [n for n in before_link if fallible(n)]
+            ok = not bad
+            res.inst(f"H5Writer.{name}:{c0.lineno} new entity node: Type link stored before any other writer call", nontrivial=True, ok=ok)
+            if not ok:
+                b0 = min(bad, key=lambda n: n.lineno)
+                res.find("H5Writer", name, "a writer call runs between the creation of the entity node and the store of its Type link", f"{fn.module.relpath}:{b0.lineno}",
+                         "if that call raises (invalid values, compression option, full disk) the node stays in the flat container without a Type link; later saves "
+                         "take the already-stored branch and never add it: the file holds an entity without a type")
     ok = n_links >= 1
     res.inst(f"writer contains {n_links} parent->child hard-link store(s)", ok=ok)
     if not ok:
